@@ -20,6 +20,7 @@ pub fn alphabet(prog: &Prog) -> Vec<Action> {
         Action::of(Cmd::StepInto(60000)),
         Action::of(Cmd::StepOut),
         Action::of(Cmd::Continue),
+        Action::of(Cmd::Goto(Loc::Abs(prog.image.origin()))),
     ];
     // breakpoints at up to three interesting addresses of the program
     let mut addrs: Vec<u16> = Vec::new();
@@ -57,9 +58,9 @@ pub fn run(ctx: &Ctx) -> i32 {
         ctx,
         acc,
         Level { category: "model_checking", bfs: Some((stats.states, transitions, transitions, stats.max_depth)) },
-        "explicit-state BFS over command histories (alphabet: step, step into {0,1,2,5,60000}, step out, continue, break add/remove at up to three addresses) on 6 programs (counted loop, taken/untaken forward/backward branches, nested JSR/RET, recursion through one CALL site with RETS, HALT in the middle, JSRR + self-branch); every transition replays history+command+`exit` on the real debugger and on the reference debugger (product exploration) and compares registers, PC, CC, all memory, breakpoint set, program output and the number of instructions executed; states deduplicated on the digest of the paused product state (machine, breakpoints, current breakpoint); plus a raw (no merging) enumeration to a smaller depth. non-trivial = transitions on which both sides agreed (distinct histories)",
+        "explicit-state BFS over command histories (alphabet: step, step into {0,1,2,5,60000}, step out, continue, goto origin, break add/remove at up to three addresses) on 9 programs (counted loop, leaving user space upwards through a bare RET / downwards through a branch / to xFFFF through a jump, taken/untaken forward/backward branches, nested JSR/RET, recursion through one CALL site with RETS, HALT in the middle, JSRR + self-branch); every transition replays history+command+`exit` on the real debugger and on the reference debugger (product exploration) and compares registers, PC, CC, all memory, breakpoint set, program output and the number of instructions executed; states deduplicated on the digest of the paused product state (machine, breakpoints, current breakpoint); plus a raw (no merging) enumeration to a smaller depth. non-trivial = transitions on which both sides agreed (distinct histories)",
         !stats.capped && !stats_raw.capped,
-        &["paused-at-breakpoint", "paused-at-halt", "stepped-over-subroutine", "loop-iteration-repeated", "command-refused"],
+        &["paused-at-breakpoint", "paused-at-halt", "paused-outside-user-space", "stepped-over-subroutine", "loop-iteration-repeated", "command-refused"],
         &["reference debugger = DESIGN.md appendix A", "observation only at command boundaries (script + exit)"],
         json!({"depth": depth, "raw_depth": raw_depth, "dedup": {"states": stats.states, "transitions": stats.transitions, "per_level": stats.per_level, "capped": stats.capped}, "raw": {"transitions": stats_raw.transitions, "per_level": stats_raw.per_level}}),
     )
